@@ -49,7 +49,17 @@ class _Cap(logging.Handler):
             self.groups.append([int(m.group(1)), int(m.group(2))])
 
 
-def _run_one(bdf, chunks, symm, mb, mm, ensure_sorted, outdir, tag, nochecks=False):
+def _frames(chunks, quarter):
+    """the chunk stream as data frames; `quarter`: the count column is float64 holding count/4 (never integral sums unless
+    the model's are multiples of 4), requested as float64 in the output"""
+    for c in chunks:
+        df = gen.pixels_df(c, "float64" if quarter else "int32")
+        if quarter:
+            df["count"] = df["count"] / 4.0
+        yield df
+
+
+def _run_one(bdf, chunks, symm, mb, mm, ensure_sorted, outdir, tag, nochecks=False, quarter=False):
     out = os.path.join(outdir, f"u-{tag}.cool")
     before = set(os.listdir(outdir))
     cap = _Cap()
@@ -60,7 +70,9 @@ def _run_one(bdf, chunks, symm, mb, mm, ensure_sorted, outdir, tag, nochecks=Fal
     lg.addHandler(cap)
     try:
         kw = dict(boundscheck=False, triucheck=False, dupcheck=False) if nochecks else {}
-        impl(cooler.create_cooler, out, bdf, (gen.pixels_df(c) for c in chunks), symmetric_upper=symm, ordered=False,
+        if quarter:
+            kw["dtypes"] = {"count": "float64"}
+        impl(cooler.create_cooler, out, bdf, _frames(chunks, quarter), symmetric_upper=symm, ordered=False,
              mergebuf=mb, max_merge=mm, ensure_sorted=ensure_sorted, **kw)
     finally:
         lg.removeHandler(cap)
@@ -68,9 +80,13 @@ def _run_one(bdf, chunks, symm, mb, mm, ensure_sorted, outdir, tag, nochecks=Fal
         lg.propagate = old[1]
     after = set(os.listdir(outdir))
     t = cooler.Cooler(out).pixels()[:]
-    got = [[int(a), int(b), int(v)] for a, b, v in zip(t["bin1_id"], t["bin2_id"], t["count"])]
-    info = cooler.Cooler(out).info
-    viol = monitor.violations(out)
+    sc = 4 if quarter else 1
+    got = [[int(a), int(b), (int(v * sc) if float(v * sc) == int(v * sc) else float(v * sc))] for a, b, v in zip(t["bin1_id"], t["bin2_id"], t["count"])]
+    info = dict(cooler.Cooler(out).info)
+    info["sum"] = info["sum"] * sc
+    if quarter and str(t["count"].dtype) != "float64":
+        got = [["count column dtype", str(t["count"].dtype)]] + got
+    viol = monitor.violations(out) if not quarter else [v for v in monitor.violations(out) if "sum" not in v]
     os.unlink(out)
     return got, info, sorted(after - before - {os.path.basename(out)}), cap.groups, viol
 
@@ -91,9 +107,12 @@ def _unordered(case):
             nochecks = len(prm) > 3 and prm[3]
             mm_eff = {"k": k, "k+1": k + 1}.get(mm, mm)
             use = [sorted(c) for c in chunks] if not es else chunks
-            got, info, leftover, groups, viol = _run_one(bdf, use, symm, mb, mm_eff, es, outdir, os.getpid(), nochecks)
+            got, info, leftover, groups, viol = _run_one(bdf, use, symm, mb, mm_eff, es, outdir, os.getpid(), nochecks,
+                                                         quarter=bool(case.get("quarter")))
             nruns += 1
             ctx = {"chunks": chunks, "mergebuf": mb, "max_merge": mm_eff, "ensure_sorted": es, "checks_off": nochecks}
+            if case.get("quarter"):
+                ctx["count_column"] = "float64 holding count/4 (values below shown x4)"
             if got != m["spec"]:
                 return {"mismatch": True, **ctx, "impl": got, "model": m["spec"]}
             if int(info["sum"]) != m["total"]:
@@ -185,6 +204,7 @@ def nontrivial(name, case):
 
 def distribution(name, case):
     if name == "unordered":
+        yield f"unordered.count={'float64 (count/4)' if case.get('quarter') else 'int32'}"
         for ch in case["chunkings"]:
             yield f"unordered.nchunks={len(ch)}"
 
@@ -219,6 +239,10 @@ def cases(tier, rng):
                         "params": [[2, 1, False], [1, 2, False], [5, 200, False]]}
     yield "unordered", {"n": 4, "symm": True, "chunkings": [[[[2, 3, 1], [0, 1, 2], [1, 1, 3], [0, 2, 4]], [[3, 3, 5], [0, 1, 6], [1, 2, 7]]]],
                         "params": [[2, 200, True, True], [1, 1, True, True]]}
+    # float count column through the two-pass merge (seeded change C06-4): four chunks, max_merge 2
+    yield "unordered", {"n": 3, "symm": True, "quarter": True,
+                        "chunkings": [[[[0, 1, 1], [1, 2, 3]], [[0, 1, 5]], [[1, 2, 2], [2, 2, 7]], [[0, 1, 1]]]],
+                        "params": [[2, 2, False], [1, 200, False], [3, 1, False]]}
     for k in range(2, 22 if thorough else 14):
         for mm in ((1, 2, 3, 4) if thorough else (1, 2, 4)):
             if mm < k:
@@ -254,7 +278,7 @@ def cases(tier, rng):
                   [2, 200, True, True], [1, 2, True, True]]   # last two: ensure_sorted with every validation check off
         yield "unordered", {"n": n, "symm": symm, "chunkings": chunkings,
                             "params": params if thorough else rng.sample(params[:6], 3) + [rng.choice(params[6:])],
-                            "layout": gen.split_layout(rng, n)}
+                            "layout": gen.split_layout(rng, n), "quarter": rng.random() < 0.4}
     for _ in range(20 if thorough else 5):
         n = rng.randint(2, 5)
         cells = [(i, j) for i in range(n) for j in range(i, n)]
